@@ -28,6 +28,26 @@ POOL = ['EQ:A', 'EQ:AB', 'EQ:A_1', 'EQ:B', 'EQ:C', 'EQ:SPY', 'EQ:Z9']
 T0 = pd.Timestamp('2021-03-01 15:00:00', tz='UTC')       # Monday, open
 
 
+class MutableAlpha(object):
+    """User-supplied alpha model whose weights the harness changes between rebalances."""
+
+    def __init__(self):
+        self.weights = {}
+
+    def __call__(self, dt):
+        return dict(self.weights)
+
+
+class SwitchUniverse(object):
+    """User-supplied universe delegating to whichever real universe the harness installs."""
+
+    def __init__(self):
+        self.inner = None
+
+    def get_assets(self, dt):
+        return self.inner.get_assets(dt)
+
+
 def next_open(t):
     d = t.date() + pd.Timedelta(days=1)
     while d.weekday() > 4:
@@ -49,6 +69,7 @@ def run_case(case):
     cls = set()
     nt = False
     info = {'orders': 0, 'liquidations': 0, 'rebalances': 0}
+    shared = None
     for rb in case['rebalances']:
         tc = cal.ts(t.date(), 21, 0)
         b.update(tc)
@@ -62,23 +83,41 @@ def run_case(case):
         else:
             uni = q.StaticUniverse(uni_assets)
         w = {POOL[i]: v for i, v in rb['weights']}
-        if long_only:
-            sizer = (q.DollarWeightedCashBufferedOrderSizer(b, 'p', dh) if rb['sizer_arg'] == 'default' else
-                     q.DollarWeightedCashBufferedOrderSizer(b, 'p', dh, cash_buffer_percentage=rb['sizer_arg']))
-        else:
-            sizer = (q.LongShortLeveragedOrderSizer(b, 'p', dh) if rb['sizer_arg'] == 'default' else
-                     q.LongShortLeveragedOrderSizer(b, 'p', dh, gross_leverage=rb['sizer_arg']))
         no_alpha = rb.get('no_alpha', False)
-        alpha = None if no_alpha else q.FixedSignalsAlphaModel(dict(w))
-        pcm = q.PortfolioConstructionModel(b, 'p', uni, sizer, q.FixedWeightPortfolioOptimiser(data_handler=dh),
-                                           alpha_model=alpha, data_handler=dh)
+        reuse = case.get('reuse', False) and not no_alpha
+        if reuse and shared:
+            # one construction model, sizer and optimiser serve every rebalance of the case, as in a session
+            pcm, sizer, alpha_obj, uni_obj = shared
+        else:
+            arg = case['rebalances'][0]['sizer_arg'] if reuse else rb['sizer_arg']
+            if long_only:
+                sizer = (q.DollarWeightedCashBufferedOrderSizer(b, 'p', dh) if arg == 'default' else
+                         q.DollarWeightedCashBufferedOrderSizer(b, 'p', dh, cash_buffer_percentage=arg))
+            else:
+                sizer = (q.LongShortLeveragedOrderSizer(b, 'p', dh) if arg == 'default' else
+                         q.LongShortLeveragedOrderSizer(b, 'p', dh, gross_leverage=arg))
+            alpha_obj, uni_obj = MutableAlpha(), SwitchUniverse()
+            pcm = q.PortfolioConstructionModel(b, 'p', uni_obj, sizer, q.FixedWeightPortfolioOptimiser(data_handler=dh),
+                                               alpha_model=None if no_alpha else alpha_obj, data_handler=dh)
+            if reuse:
+                shared = (pcm, sizer, alpha_obj, uni_obj)
+        alpha_obj.weights = dict(w)
+        uni_obj.inner = uni
         held = {a: d['quantity'] for a, d in b.get_portfolio_as_dict('p').items()}
         in_uni = list(uni.get_assets(tc))
         if no_alpha:
             w = {a: 0.0 for a in in_uni}
         S = set(in_uni) | set(held) | set(w)
-        fw = {a: w.get(a, 0.0) for a in S}
+        # same key order as the construction model uses (sorted universe u held, then the alpha's further keys): the
+        # sizers add the weights up in dict order, and a float sum can differ in the last bit between orders
+        fw = {a: 0.0 for a in sorted(set(in_uni) | set(held))}
+        fw.update(w)
         tgt = {a: d['quantity'] for a, d in sizer(tc, dict(fw)).items()} if S else {}
+        rev = {a: fw[a] for a in reversed(list(fw))}
+        tgt_rev = {a: d['quantity'] for a, d in sizer(tc, rev).items()} if S else {}
+        if tgt_rev != tgt:
+            # a quotient sits on a rounding boundary: the target depends on the summation order of the weights
+            return Result(sorted(cls) + ['order_sensitive_rounding'], excluded='order_sensitive_rounding')
         sized_all = set(tgt) == S
         if not sized_all:
             # the sizer left assets out (its own contract is C10/C11's subject): an asset without a weight has
@@ -140,6 +179,8 @@ def run_case(case):
             cls.add('no_alpha_model')
         if rb['sizer_arg'] == 'default':
             cls.add('default_sizer')
+        if reuse and len(case['rebalances']) > 1:
+            cls.add('model_reused_across_rebalances')
         if not S:
             cls.add('empty_asset_set')
         if set(w) and not (set(w) & (set(held) | set(in_uni))):
@@ -189,7 +230,8 @@ def cases(draw):
             'moves': [draw(st.sampled_from([1.0, 0.9, 1.1, 1.03, 0.97])) for _ in POOL],
         })
     return {'long_only': long_only, 'cash': cash, 'prices': prices, 'holdings': holdings,
-            'fee': draw(st.sampled_from([None, None, [0.001, 0.0], [0.001, 0.005]])), 'rebalances': rebs}
+            'fee': draw(st.sampled_from([None, None, [0.001, 0.0], [0.001, 0.005]])), 'rebalances': rebs,
+            'reuse': draw(st.sampled_from([True, True, False]))}
 
 
 PARTS = [
